@@ -21,7 +21,7 @@ class Recorder:
         self.con_calls = []       # (x_in, x_out)
         self.cb_calls = []        # x               callback arguments
         self.trials = []          # (gen_marker, candidate, trial vector) produced by the DE strategy
-        self.linesearch = []      # (p, xi, fret, xnew, xinew)
+        self.linesearch = []      # (p, xi, fret, xnew, xinew, [(point, decorated cost)...])
         self.snaps = []           # snapshot after every op
         self.box_at_call = []     # (lo, hi) in force at each cost call (None when no strict ranges)
         self.epoch = 0
@@ -144,8 +144,15 @@ class patched:
 
         def ls(func, p, xi, tol=1e-3, maxiter=500):
             p0 = vec(p); xi0 = vec(xi)
-            fret, xn, xin = self.ls(func, p, xi, tol=tol, maxiter=maxiter)
-            rec.linesearch.append((p0, xi0, float(fret), vec(xn), vec(xin)))
+            pts = []          # every point Brent hands to the decorated cost, with the value it got back
+
+            def probed(z):
+                zv = vec(z)
+                v = func(z)
+                pts.append((zv, float(np.asarray(v, dtype=float).ravel()[0])))
+                return v
+            fret, xn, xin = self.ls(probed, p, xi, tol=tol, maxiter=maxiter)
+            rec.linesearch.append((p0, xi0, float(fret), vec(xn), vec(xin), pts))
             return fret, xn, xin
         SO._linesearch_powell = ls
         return self
